@@ -325,6 +325,48 @@ def events(b, rng, exp, ver, players, vehicles, consts):
     """random battle events + the naive fold of what the summary must say about them"""
     deaths, ach, ribbons, shots, dmg, planes_list, planes_count = [], {}, {}, {}, {}, [], {}
     by_id = exp['players']
+
+    def roster_message(meth, force_all=False):
+        pl = rng.choice(players)
+        upd = {'id': pl['id'], 'maxHealth': rng.randint(1, 99999), 'name': rng.choice(['Zed', 'Ωmega', 'Q'])}
+        m = b.method_def('Avatar', meth)
+        # the roster messages carry up to three lists (players, bots, observers), each with its own index -> name table
+        kinds = {'player': [upd]}
+        if m is not None:
+            for an, t in m['args']:
+                kind = 'bot' if an and 'bots' in an else 'observer' if an and 'observers' in an else None
+                table = getattr(consts, {'bot': 'id_property_map_bots', 'observer': 'id_property_map_observer'}.get(kind, ''), None)
+                if kind and table and 'id' in table.values() and (force_all or rng.random() < 0.6):
+                    names = set(table.values())
+                    extra_id = 700 + len(by_id)
+                    row = {'id': extra_id}
+                    for k, v in (('name', rng.choice(['Bot', 'Ōbs', 'X'])), ('accountDBID', rng.randint(1, 10 ** 6)), ('avatarId', rng.randint(1, 10 ** 6)),
+                                 ('maxHealth', rng.randint(1, 99999)), ('teamId', rng.randint(0, 1))):
+                        if k in names and rng.random() < 0.8:
+                            row[k] = v
+                    kinds[kind] = [row]
+        rows = {k: roster_rows(consts, k, v) for k, v in kinds.items()}
+        if m is not None and rows['player'] is not None:
+            args = {}
+            first_blob = True
+            for j, (an, t) in enumerate(m['args']):
+                key = an if an is not None else j
+                if history.peel(t)['k'] == 'blob':
+                    if an in ('playersData', 'playersStates') or (an is None and first_blob):
+                        args[key] = blob(rows['player'])
+                    elif an and 'bots' in an and rows.get('bot'):
+                        args[key] = blob(rows['bot'])
+                    elif an and 'observers' in an and rows.get('observer'):
+                        args[key] = blob(rows['observer'])
+                    else:
+                        args[key] = blob([])
+                    first_blob = False
+            if b.call(AVATAR_ID, meth, args):
+                for kind in ('player', 'bot', 'observer'):          # the order in which the controllers merge the three lists
+                    for row in kinds.get(kind, []):
+                        by_id.setdefault(row['id'], {}).update(row)
+                        b.trace.append(['roster', row['id'], [[k, json.dumps(v)] for k, v in row.items()]])
+
     n = rng.randint(8, 25)
     for _ in range(n):
         r = rng.random()
@@ -421,25 +463,10 @@ def events(b, rng, exp, ver, players, vehicles, consts):
                     b.trace.append(['ribbon', players[k]['avatarId'], rid])
         elif r < 0.9:
             # roster update / mid-battle join: right-biased merge by id
-            pl = rng.choice(players)
-            upd = {'id': pl['id'], 'maxHealth': rng.randint(1, 99999), 'name': rng.choice(['Zed', 'Ωmega', 'Q'])}
-            meth = rng.choice(['onGameRoomStateChanged', 'onNewPlayerSpawnedInBattle'])
-            m = b.method_def('Avatar', meth)
-            rows = roster_rows(consts, 'player', [upd])
-            if m is not None and rows is not None:
-                args = {}
-                first_blob = True
-                for j, (an, t) in enumerate(m['args']):
-                    key = an if an is not None else j
-                    if history.peel(t)['k'] == 'blob':
-                        if an in ('playersData', 'playersStates') or (an is None and first_blob):
-                            args[key] = blob(rows)
-                        else:
-                            args[key] = blob([])
-                        first_blob = False
-                if b.call(AVATAR_ID, meth, args):
-                    by_id[pl['id']].update(upd)
-                    b.trace.append(['roster', pl['id'], [[k, json.dumps(v)] for k, v in upd.items()]])
+            roster_message(rng.choice(['onGameRoomStateChanged', 'onNewPlayerSpawnedInBattle']))
+    # every battle ends with one roster message of each kind carrying all three lists
+    for meth in ('onGameRoomStateChanged', 'onNewPlayerSpawnedInBattle'):
+        roster_message(meth, force_all=True)
     exp.update({'death_map': deaths, 'achievements': ach, 'shots_damage_map': shots, 'damage_map': dmg})
     if ver <= (0, 11, 11):
         exp['ribbons'] = ribbons
